@@ -154,6 +154,14 @@ def check(run, replay):
             quads.append(_mk(WITNESS["Y"], WITNESS["X"], {a: a for a in range(3)}, {a: a + 10 for a in range(3)}, fl,
                              "witness", "identity", "offset"))
         quads += gen_quads(run.rng, run.tier, 150 if run.tier == "quick" else 900)
+        if run.tier == "thorough":
+            # exhaustive small scope: every pair of length <= 4 over 3 codes, both flags, order-reversing sparse f and offset g
+            f = {a: 1000 - 7 * a for a in range(3)}
+            g = {a: a + 10 for a in range(3)}
+            for fl in (True, False):
+                for c in c01.exhaustive_pairs(fl, maxlen=4):
+                    quads.append(_mk(c["Y"], c["X"], {a: f[a] for a in set(c["Y"])}, {a: g[a] for a in set(c["X"])}, fl,
+                                     "exhaustive", "reverse-affine", "offset"))
     ev = evaluate("C02", quads)
 
     hist = {"family": {}, "f_kind": {}, "g_kind": {}, "flag_true": 0, "identical_base": 0, "identical_after": 0,
@@ -209,6 +217,9 @@ def check(run, replay):
                "worst |impl-model| = %.2f * 2^-24 * (sum|terms|+1e-6), allowed %.0f" % (worst, c01.TOL_FACTOR))
     run.cov["input_distribution"] = {k: (int(v) if isinstance(v, bool) else v) for k, v in hist.items()}
     run.cov["exhaustive"] = False
+    if run.tier == "thorough" and replay is None:
+        run.cov["exhaustive_small_scope"] = ("all pairs of length <= 4 over 3 codes x both flags (14760 quadruples) with "
+                                             "f = 1000 - 7c, g = c + 10 included")
     run.samples = [{k: (v[:30] if isinstance(v, list) else v) for k, v in q.items()} for q in quads[:3]]
     run.assumptions += [
         "recodings keep codes in [0, 2^20) (quantifier of the property); the theorems hold for any injective maps on Z",
